@@ -84,26 +84,32 @@ fn to_packet(n: Notification) -> d::Packet {
     }
 }
 
-/// publish forwarded to a 3.1.1 subscriber (whatever version the publisher spoke)
+/// publish forwarded to a 3.1.1 subscriber (whatever version the publisher spoke): encodable
+/// without panic, and byte-for-byte the frame of the same publish without properties
+/// (= properties dropped, topic / payload / qos / pkid / retain kept; that this frame decodes in a
+/// 3.1.1 client is C04's business).
 fn forward_to_v4(with_props: bool, qn: u8, retain: bool) {
-    let (f, topic, payload, qn, pkid, retain) = any_forward(with_props, qn, retain);
+    let (f, _topic, _payload, _qn, _pkid, _retain) = any_forward(with_props, qn, retain);
+    let plain = Forward { cursor: None, size: 0, publish: f.publish.clone(), properties: None };
     let packet = to_packet(Notification::Forward(f));
     let mut buf = BytesMut::with_capacity(64);
     let w = V4.write(packet, &mut buf); // must not panic even when the publisher attached properties
     assert!(w.is_ok(), "C20: 3.1.1 encoder refused a forwarded publish");
     assert!(matches!(w, Ok(n) if n == buf.len()), "C20: 3.1.1 encoder reported a wrong size");
-    let r = c4::Packet::read(&mut buf, MAX);
-    match &r {
-        Ok(c4::Packet::Publish(p)) => {
-            assert!(p.topic.as_bytes() == &topic[..] && p.payload[..] == payload[..], "C20: topic/payload changed towards a 3.1.1 subscriber");
-            assert!(p.qos as u8 == qn && p.pkid == pkid && p.retain == retain, "C20: qos/pkid/retain changed towards a 3.1.1 subscriber");
+    let mut buf2 = BytesMut::with_capacity(64);
+    let w2 = V4.write(to_packet(Notification::Forward(plain)), &mut buf2);
+    assert!(w2.is_ok(), "C20: 3.1.1 encoder refused a plain publish");
+    assert!(buf.len() == buf2.len() && buf.len() <= 12, "C20: properties changed the 3.1.1 frame length");
+    let mut i = 0;
+    while i < 12 {
+        if i < buf.len() {
+            assert!(buf[i] == buf2[i], "C20: properties leaked into / changed the 3.1.1 frame");
         }
-        _ => assert!(false, "C20: 3.1.1 client cannot decode the forwarded publish"),
+        i += 1;
     }
-    assert!(buf.is_empty(), "C20: stray bytes after the forwarded publish");
-    kani::cover!(true, "decoded");
-    core::mem::forget(r);
+    kani::cover!(true, "encoded");
     core::mem::forget(w);
+    core::mem::forget(w2);
 }
 
 /// publish forwarded to an MQTT 5 subscriber: properties preserved
@@ -281,12 +287,9 @@ fn all_acks_v5() {
 }
 
 c20! {
-    forward_plain_q0_to_v4: { forward_to_v4(false, 0, false); forward_to_v4(false, 0, true) }, 6;
-    forward_plain_q1_to_v4: { forward_to_v4(false, 1, false); forward_to_v4(false, 1, true) }, 6;
-    forward_plain_q2_to_v4: { forward_to_v4(false, 2, false); forward_to_v4(false, 2, true) }, 6;
-    forward_props_q0_to_v4: forward_to_v4(true, 0, false), 6;
-    forward_props_q1_to_v4: forward_to_v4(true, 1, true), 6;
-    forward_props_q2_to_v4: forward_to_v4(true, 2, false), 6;
+    forward_props_q0_to_v4: forward_to_v4(true, 0, false), 14;
+    forward_props_q1_to_v4: forward_to_v4(true, 1, true), 14;
+    forward_props_q2_to_v4: forward_to_v4(true, 2, false), 14;
     forward_plain_q0_to_v5: { forward_to_v5(false, 0, false); forward_to_v5(false, 0, true) }, 6;
     forward_plain_q1_to_v5: { forward_to_v5(false, 1, false); forward_to_v5(false, 1, true) }, 6;
     forward_plain_q2_to_v5: { forward_to_v5(false, 2, false); forward_to_v5(false, 2, true) }, 6;
